@@ -540,6 +540,12 @@ def gen_c02_decls(rng, tier):
         return [block("validate", [[tid("regex"), EQ, tstr(REGEX_LITS[3]) if lit_ else tpath("RE3")], [tid("len_char_max"), EQ, li(6)]], trailing=trail), D(["Debug"])], False
     family("String", rx_blocks, [(True, False), (False, False), (True, True), (False, True)])
 
+    # one regex, three spellings: the literal with an inline flag, a static built from the same text, a static built
+    # with RegexBuilder::case_insensitive(true) (the options of a named regex are part of the rule)
+    def rx_ci_blocks(v):
+        return [block("validate", [[tid("regex"), EQ, (tstr(REGEX_LITS[4]) if v == "lit" else tpath(v))]]), D(["Debug"])], False
+    family("String", rx_ci_blocks, ["lit", "RE4", "RE5"])
+
     # flags never change what the rules mean: const_fn / new_unchecked in any position
     def flag_family(inner, base_blocks):
         variants = [([], []), ([[tid("const_fn")]], []), ([], [[tid("const_fn")]]), ([[tid("new_unchecked")]], []), ([[tid("const_fn")], [tid("new_unchecked")]], []),
